@@ -36,8 +36,8 @@ REGISTRY = dict(
           "'samples follow that density' is decided only through the reparametrisation identity of the recorded draw and 6-sigma statistics."),
     note=("Axioms reported by Print Assumptions for Props/C14.v: ClassicalDedekindReals.sig_forall_dec, ClassicalDedekindReals.sig_not_dec, "
           "FunctionalExtensionality.functional_extensionality_dep, Classical_Prop.classic (Coq standard library real numbers, used by every theorem incl. the Q2R fragment lemmas); "
-          "C14_squashed_mode_not_maximiser_refuted' and the generated correspondence goals additionally use Coq-Interval, i.e. the primitive PrimInt63/PrimFloat operations and their "
-          "Uint63.*_spec / FloatAxioms.*_spec axioms. Trusted: Coq 8.16.1 kernel (vm_compute inside Interval, no native_compute), Coquelicot 3 / Interval 4 libraries, "
+          "the refuted witness is proved by hand from 1+x <= exp x (no Interval). Only the generated correspondence goals (coq/Gen/Cases_C14_*.v) use Coq-Interval, i.e. the primitive "
+          "PrimInt63/PrimFloat operations and their Uint63.*_spec / FloatAxioms.*_spec axioms. Trusted: Coq 8.16.1 kernel (vm_compute inside Interval, no native_compute), Coquelicot 3 / Interval 4 libraries, "
           "translate/py2coq.py + specs/dist.py, harness/c14.py, Python/torch. Not verified: float64 rounding (tolerance rel 1e-9), float32 saturation of tanh, the sampling law."),
     technique="machine-checked proof in Coq over R (Coquelicot is_derive, induction over dimensions) + regenerated-fragment interface lemmas + Coq-Interval-checked numerical correspondence",
 )
